@@ -82,6 +82,10 @@ func main() {
 		for _, b := range readCases(path) {
 			runTimeDep(b)
 		}
+	case "crash":
+		for _, b := range readCases(path) {
+			runCrash(b)
+		}
 	case "solve":
 		for _, b := range readCases(path) {
 			runSolve(b)
